@@ -6,6 +6,7 @@ package metric
 // ManualReader, or a PeriodicReader's run loop / ForceFlush / Shutdown export in the background.
 
 import (
+	"errors"
 	"context"
 	"fmt"
 	"os"
@@ -102,6 +103,7 @@ type c02Scn struct {
 	periodic  bool
 	twoScopes bool // attribute set B is recorded on the same-named instrument of a second meter (scope)
 	cumExport bool // the periodic reader exports cumulative values: what the exporter holds last is the total, and it never goes down
+	failingCb bool // an observable gauge whose callback fails while op "Ff" (a ForceFlush) runs: that collection reports data AND an error
 }
 
 func c02Body(sc c02Scn, res *string) func(x *sched.Exec) {
@@ -141,6 +143,16 @@ func c02Body(sc c02Scn, res *string) func(x *sched.Exec) {
 			c, _ := meter.Int64UpDownCounter("c")
 			sign = -1
 			add = func(v int64, a string) { c.Add(ctx, -v, api.WithAttributes(attribute.String("k", a))) }
+		}
+		cbFail := false
+		if sc.failingCb {
+			_, _ = meter.Int64ObservableGauge("g", api.WithInt64Callback(func(_ context.Context, o api.Int64Observer) error {
+				if cbFail {
+					return errors.New("c02: callback failed")
+				}
+				o.Observe(1)
+				return nil
+			}))
 		}
 		want := map[string]int64{}
 		vi := 0
@@ -206,6 +218,12 @@ func c02Body(sc c02Scn, res *string) func(x *sched.Exec) {
 						if err := pr.ForceFlush(ctx); err != nil {
 							failed = true
 						}
+					case "Ff": // a flush during which a callback of another instrument fails: data and an error
+						cbFail = true
+						if err := pr.ForceFlush(ctx); err == nil {
+							x.Fail("C02|failing-callback-not-reported", "ForceFlush returned nil although a callback failed during its collection")
+						}
+						cbFail = false
 					case "S": // Shutdown racing the interval export
 						shutdownCalledAt = tick()
 						if err := pr.Shutdown(ctx); err != nil {
@@ -298,7 +316,9 @@ func c02Body(sc c02Scn, res *string) func(x *sched.Exec) {
 					}
 				}
 			}
-			if !sc.cumExport {
+			if sc.failingCb {
+				check("delta-periodic|a collection reported data together with a callback error", exp.colls, must)
+			} else if !sc.cumExport {
 				check("delta-periodic", exp.colls, must)
 			} else {
 				// cumulative exports, in the order the exporter received them: never a step back, and
@@ -491,26 +511,28 @@ func (j c02Job) name() string { return fmt.Sprintf("%s/P%dE%d", j.sc.name, j.p, 
 
 func c02Jobs(thorough bool) []c02Job {
 	A, B := "A", "B"
-	m1 := c02Scn{"M1-int", "int", [][]string{{A, B}, {A, A}}, [][]string{{"D", "D"}}, false, false, false}
-	m2 := c02Scn{"M2-float", "float", [][]string{{A, B}, {A}}, [][]string{{"D"}, {"C"}}, false, false, false}
-	m3 := c02Scn{"M3-updown", "updown", [][]string{{A, A}, {A}}, [][]string{{"D", "C"}}, false, false, false}
-	m4 := c02Scn{"M4-int-2collectors", "int", [][]string{{A, A}}, [][]string{{"D"}, {"D"}}, false, false, false}
-	p1 := c02Scn{"P1-periodic", "int", [][]string{{A, B}}, [][]string{{"F"}}, true, false, false}
-	p2 := c02Scn{"P2-periodic", "int", [][]string{{A}, {A}}, [][]string{{"F"}, {"D"}}, true, false, false}
-	m5 := c02Scn{"M5-int-3recorders", "int", [][]string{{A, B}, {A, A}, {B}}, [][]string{{"D", "D"}, {"C"}}, false, false, false}
-	p3 := c02Scn{"P3-periodic-float", "float", [][]string{{A, A}, {B}}, [][]string{{"F", "F"}}, true, false, false}
+	m1 := c02Scn{"M1-int", "int", [][]string{{A, B}, {A, A}}, [][]string{{"D", "D"}}, false, false, false, false}
+	m2 := c02Scn{"M2-float", "float", [][]string{{A, B}, {A}}, [][]string{{"D"}, {"C"}}, false, false, false, false}
+	m3 := c02Scn{"M3-updown", "updown", [][]string{{A, A}, {A}}, [][]string{{"D", "C"}}, false, false, false, false}
+	m4 := c02Scn{"M4-int-2collectors", "int", [][]string{{A, A}}, [][]string{{"D"}, {"D"}}, false, false, false, false}
+	p1 := c02Scn{"P1-periodic", "int", [][]string{{A, B}}, [][]string{{"F"}}, true, false, false, false}
+	p2 := c02Scn{"P2-periodic", "int", [][]string{{A}, {A}}, [][]string{{"F"}, {"D"}}, true, false, false, false}
+	m5 := c02Scn{"M5-int-3recorders", "int", [][]string{{A, B}, {A, A}, {B}}, [][]string{{"D", "D"}, {"C"}}, false, false, false, false}
+	p3 := c02Scn{"P3-periodic-float", "float", [][]string{{A, A}, {B}}, [][]string{{"F", "F"}}, true, false, false, false}
 	// two scopes, interval export in flight while Shutdown cancels the run loop's context
-	p4 := c02Scn{"P4-periodic-2scopes-shutdown", "int", [][]string{{A, B}}, [][]string{{"S"}}, true, true, false}
+	p4 := c02Scn{"P4-periodic-2scopes-shutdown", "int", [][]string{{A, B}}, [][]string{{"S"}}, true, true, false, false}
 	// cumulative exporter: an interval export in flight while Shutdown makes its final collection
 	p5 := c02Scn{name: "P5-periodic-cumulative-shutdown", kind: "int", rec: [][]string{{A}, {A}}, collects: [][]string{{"F"}, {"S"}}, periodic: true, cumExport: true}
-	m6 := c02Scn{"M6-int-2scopes", "int", [][]string{{A, B}, {B, A}}, [][]string{{"D", "D"}}, false, true, false}
+	m6 := c02Scn{"M6-int-2scopes", "int", [][]string{{A, B}, {B, A}}, [][]string{{"D", "D"}}, false, true, false, false}
 	// a NEW set measured by two threads with a delta collection in between, while another set of the
 	// same cycle keeps the stream table at the same size before and after the collection
-	m10 := c02Scn{"M10-new-set-twice-across-a-delta-collection", "int", [][]string{{A, B}, {B}}, [][]string{{"D"}}, false, false, false}
+	// a failing callback of ANOTHER instrument in one cycle: the sums collected in that cycle still count
+	p6 := c02Scn{name: "P6-periodic-failing-callback", kind: "int", rec: [][]string{{A}, {B}}, collects: [][]string{{"Ff", "F"}}, periodic: true, failingCb: true}
+	m10 := c02Scn{"M10-new-set-twice-across-a-delta-collection", "int", [][]string{{A, B}, {B}}, [][]string{{"D"}}, false, false, false, false}
 	if !thorough {
-		return []c02Job{{m10, 3, 0}, {m1, 3, 0}, {m2, 3, 0}, {m3, 3, 0}, {m4, 3, 0}, {m6, 2, 0}, {p1, 1, 1}, {p2, 1, 0}, {p2, 0, 1}, {p4, 1, 1}, {p5, 1, 0}, {p5, 0, 1}}
+		return []c02Job{{m10, 3, 0}, {p6, 1, 0}, {m1, 3, 0}, {m2, 3, 0}, {m3, 3, 0}, {m4, 3, 0}, {m6, 2, 0}, {p1, 1, 1}, {p2, 1, 0}, {p2, 0, 1}, {p4, 1, 1}, {p5, 1, 0}, {p5, 0, 1}}
 	}
-	return []c02Job{{m10, 4, 0}, {m1, 4, 0}, {m2, 4, 0}, {m3, 4, 0}, {m4, 4, 0}, {m5, 2, 0}, {m5, 3, 0}, {p1, 2, 2}, {p2, 1, 1}, {p2, 2, 0}, {p3, 1, 1}, {p3, 2, 0}, {p4, 2, 1}, {p4, 1, 2}, {m6, 3, 0}, {p5, 2, 1}}
+	return []c02Job{{m10, 4, 0}, {p6, 2, 1}, {m1, 4, 0}, {m2, 4, 0}, {m3, 4, 0}, {m4, 4, 0}, {m5, 2, 0}, {m5, 3, 0}, {p1, 2, 2}, {p2, 1, 1}, {p2, 2, 0}, {p3, 1, 1}, {p3, 2, 0}, {p4, 2, 1}, {p4, 1, 2}, {m6, 3, 0}, {p5, 2, 1}}
 }
 
 // c02SameName: "for every counter and up-down counter ... the sum of the measurements recorded" is
